@@ -66,6 +66,11 @@ type Nil struct{}
 type Stale struct{} // $$ read before assignment in an empty rule
 type Opq struct{ What string }
 
+// Global is a package-level variable used as a value.
+type Global struct{ Name string }
+
+func (v Global) String() string { return "global:" + v.Name }
+
 func (v Sym) String() string { return fmt.Sprintf("$%d", v.I) }
 func (v *Obj) String() string {
 	return fmt.Sprintf("&%s#%d", v.TName, v.ID)
@@ -768,6 +773,9 @@ func (in *interp) eval(e ast.Expr, s *State) Val {
 			if v, ok := s.env[o]; ok {
 				return v
 			}
+			if vr, ok := o.(*types.Var); ok && vr.Parent() == vr.Pkg().Scope() {
+				return Global{x.Name}
+			}
 		}
 		return Opq{"ident " + x.Name}
 	case *ast.SelectorExpr:
@@ -1028,9 +1036,13 @@ func (in *interp) call(c *ast.CallExpr, s *State) Val {
 			return Opq{"NewError(" + strings.Join(as, ", ") + ")"}
 		case recv == "strconv" || recv == "bytes" || recv == "strings":
 			var as []string
+			ev := Event{Kind: "call:" + recv + "." + se.Sel.Name, At: c.Pos()}
 			for _, a := range c.Args {
-				as = append(as, in.eval(a, s).String())
+				v := in.eval(a, s)
+				as = append(as, v.String())
+				ev.Args = append(ev.Args, v)
 			}
+			s.Events = append(s.Events, ev)
 			return Opq{recv + "." + se.Sel.Name + "(" + strings.Join(as, ", ") + ")"}
 		}
 	}
